@@ -19,7 +19,7 @@ CG_FACTOR = 20.0        # relative residual ||op(A)x-b||/||b|| <= 20*tol per col
 
 RULE = ("case = solver in {SolverDiagonal, DenseQR, DenseLU, DenseCholesky, DenseLDL(hint), SparseLU, CG(preconditioner in "
         "identity/DampedJacobi/SOR/ILU/GeometricMultigrid; tol, restart), auto_determine_solver(true overrides)} x matrix "
-        "class admissible for that solver (diag, spd, sym_indef, herm_pd, herm_indef, herm_posdiag_indef, complex_sym, "
+        "class admissible for that solver (diag, spd, sym_indef, herm_pd, herm_indef, herm_posdiag_indef, herm_tinydiag_indef (2x2 blocks with a tiny one-signed diagonal), complex_sym, "
         "general, upper, lower, random off-diagonal sparsity pattern, FE stiffness/Poisson/mass from pymoto assembly on "
         "even 2D/3D grids) built from a prescribed spectrum with bounded condition number, real/complex, dense/csc/csr/"
         "coo(/dia) storage, n=1..8 (14 thorough), x 1..4 solves with trans in N/T/H, rhs shape (n),(n,1),(n,k), real/"
@@ -40,14 +40,14 @@ ASSUMPTIONS = [
     "trusted base: numpy dense algebra (matmul, 2-norm) for the residual",
 ]
 
-DENSE_ANY = ["diag", "spd", "sym_indef", "herm_pd", "herm_indef", "herm_posdiag_indef", "complex_sym", "general",
+DENSE_ANY = ["diag", "spd", "sym_indef", "herm_pd", "herm_indef", "herm_posdiag_indef", "herm_tinydiag_indef", "complex_sym", "general",
              "upper", "lower", "pattern"]
 KINDS = {
     "diag": ["diag"],
     "qr": DENSE_ANY,
     "lu": DENSE_ANY,
-    "chol": ["spd", "herm_pd", "sym_indef", "herm_indef", "herm_posdiag_indef", "diag_real"],
-    "ldl": ["spd", "sym_indef", "herm_pd", "herm_indef", "herm_posdiag_indef", "complex_sym", "complex_sym", "diag"],
+    "chol": ["spd", "herm_pd", "sym_indef", "herm_indef", "herm_posdiag_indef", "herm_tinydiag_indef", "diag_real"],
+    "ldl": ["spd", "sym_indef", "herm_pd", "herm_indef", "herm_posdiag_indef", "herm_tinydiag_indef", "complex_sym", "complex_sym", "diag"],
     "splu": DENSE_ANY + ["fe"],
     "cg": ["spd", "herm_pd", "fe", "fe"],
     "auto": DENSE_ANY + ["fe"],
